@@ -28,4 +28,24 @@ NewmanNum(A, E, i) ==
          ELSE SumN(LAMBDA j : A[i][j] * Abs(E[i][t] + E[j][s] - E[i][s] - E[j][t]), 1, n), 1, t - 1), 1, n)
 \* n * b_i scaled by 10^6:   2 + NewmanNum / (2 tau (n - 1))
 NewmanRWB6(A, E, tau, i) == 2000000 + FxDiv(NewmanNum(A, E, i), 2 * tau * (Len(A) - 1), 1000000)
+
+\* ---- Arenas-type random-walk betweenness ------------------------------------------------------------------
+\* A walker starts at a source s and moves to a uniformly chosen neighbour until it ARRIVES at the target i, where
+\* it is absorbed.  b_j = sum over all targets i and all sources s of the expected number of arrivals at j
+\* (arrivals, not the start: the walk s -> i arrives at i exactly once).  With P the transition matrix and P(i) the
+\* same matrix with row i set to zero, the arrivals are the entries of  sum_{m >= 1} P(i)^m = (1 - P(i))^-1 P(i);
+\* multiplying out the degrees,  (1 - P(i))^-1 P(i) = M(i)^-1 A(i)  with the INTEGER matrix M(i) = D - A(i)
+\* (A(i) = A with row i zero, D the degrees), whose inverse is its adjugate over its determinant.
+AbsorbM(A, i) == TLCEval([a \in 1..Len(A) |-> TLCEval([b \in 1..Len(A) |->
+                   IF a = b THEN SumN(LAMBDA c : A[a][c], 1, Len(A)) ELSE IF a = i THEN 0 ELSE -A[a][b]])])
+Cof(M, r, c) == (IF (r + c) % 2 = 0 THEN 1 ELSE -1) * Det(Minor(M, r, c))
+\* det M(i) * sum_s [M(i)^-1]_{s l}:  the inverse's entry (s, l) is the cofactor of (l, s) over the determinant
+ColSumAdj(M, l) == SumN(LAMBDA s : Cof(M, l, s), 1, Len(M))
+\* expected arrivals at j, summed over all sources, for the target i: <<numerator, denominator>>
+ArenasTarget(A, i, j) ==
+  LET M == AbsorbM(A, i) IN
+  <<SumN(LAMBDA l : IF l = i \/ A[l][j] = 0 THEN 0 ELSE ColSumAdj(M, l), 1, Len(A)), Det(M)>>
+ArenasRWB6(A, j) == SumN(LAMBDA i : LET q == ArenasTarget(A, i, j) IN
+                                     IF q[2] > 0 THEN FxDiv(q[1], q[2], 1000000) ELSE -FxDiv(q[1], -q[2], 1000000),
+                         1, Len(A))
 =============================================================================
